@@ -574,7 +574,8 @@ type BigImportFault struct {
 
 var errImportHang = errors.New("import did not return")
 
-const bigImportWatchdog = 2 * time.Minute
+// bigImportWatchdog: at least 20 s and at least 50 times what the fault-free import of the same stream just took
+var bigImportWatchdog = 20 * time.Second
 
 func runBigImportFault(c BigImportFault) (v *Violation, positions int) {
 	defer func() {
@@ -603,7 +604,7 @@ func runBigImportFault(c BigImportFault) (v *Violation, positions int) {
 		tr := iavl.NewMutableTree(tdb, 0, c.Skip, iavl.NewNopLogger())
 		// the import runs under a watchdog: a failed background write must come back as an error from
 		// Add/Commit and Close must return; an importer that blocks for ever never surfaces the fault.
-		// (a fault-free import of this size takes well under a second; the limit is two minutes.)
+		// (limit: 50 times the duration of the fault-free import of the same stream, at least 20 s.)
 		type res struct {
 			err error
 			pan any
@@ -630,7 +631,13 @@ func runBigImportFault(c BigImportFault) (v *Violation, positions int) {
 			return errImportHang, tdb
 		}
 	}
+	bigImportWatchdog = 10 * time.Minute // the fault-free run is only measured
+	start := time.Now()
 	err0, t0 := attempt(0)
+	bigImportWatchdog = 20 * time.Second
+	if d := 50 * time.Since(start); d > bigImportWatchdog {
+		bigImportWatchdog = d
+	}
 	if err0 != nil {
 		return &Violation{Prop: "C17", Obs: "bigimport.faultfree", Msg: err0.Error()}, 0
 	}
